@@ -1,20 +1,24 @@
 (* C18 - Clone and pick preserve content and sharing; the reference map is a map.
    Only statements, each closed by [exact] of a lemma proved in Refmap/RefmapProofs.v / Refmap/CloneProofs.v.
-   Model: Refmap/RefmapModel.v (transcription of src/runtime/refmap.c with size_t wraps; the hash is ANY function).
-   Vocabulary: [inv hash m] table invariant (count = occupied slots <= load threshold < buckets, every key reachable
-   from its home slot over occupied slots, keys distinct); [holds m k r] key k is stored with reference r;
+   Model: Refmap/RefmapModel.v (transcription of src/runtime/refmap.c with size_t wraps; the hash is ANY function;
+   the GROWTH POLICY is an oracle: every insert / resize carries "allocation refused" or the bucket count the
+   implementation was observed to have after the operation, and the model brings its table to that size).
+   Vocabulary: [inv hash m] table invariant (buckets 0 or a power of two, count = occupied slots < buckets, every key
+   reachable from its home slot over occupied slots, keys distinct); [holds m k r] key k is stored with reference r;
    [rep hash m A] = inv + (holds m k r <-> A k = Some r) for an abstract map A : Z -> option Z;
+   [policy_ok c A o] THE SIDE CONDITION on an observed bucket count nb (c = stored keys): nb is a power of two <= 2^60,
+   c < nb, and for an insert of a new key c + 1 < nb (an empty slot remains, so every probe loop ends);
    [trace_ok A ops outs] every result in the run is the one the abstract map dictates;
-   [last_stored h k] the last reference successfully inserted under k since the last reset / clear (h newest first). *)
+   [last_stored h k] the last reference successfully inserted under k since the last reset / clear (h newest first).
+   The growth policy of refmap.c itself is a separate obligation: Properties_C18p.v. *)
 From Flatcc.Refmap Require Import RefmapModel RefmapProofs CloneProofs.
 Local Open Scope Z_scope.
 
-(* For EVERY hash function and EVERY sequence of inserts / finds / resizes / resets / clears (allocation answers
-   included in the operations; manual resize requests below GROW_LIMIT = 179 * 2^48): no loop runs out of steps,
-   every intermediate result is the abstract map's, the invariant holds at the end, and find returns for each key
-   the last reference stored under it since the last reset / clear, not_found otherwise. *)
+(* For EVERY hash function, EVERY sequence of inserts / finds / resizes / resets / clears and EVERY growth oracle: no loop
+   runs out of steps, every intermediate result is the abstract map's (an oracle that violates the side condition gives
+   BadPolicy and changes nothing), the invariant holds at the end, and find returns for each key the last reference stored
+   under it since the last reset / clear, not_found otherwise. *)
 Theorem C18_refmap_refines : forall (hash : Z -> Z) ops,
-  Forall wf_op ops ->
   exists m outs, run hash rm_init ops = Some (m, outs) /\
     trace_ok aempty ops outs /\
     inv hash m /\
@@ -25,16 +29,17 @@ Print Assumptions C18_refmap_refines.
 
 (* the same from any state that represents an abstract map *)
 Theorem C18_run_refines : forall (hash : Z -> Z) ops m A,
-  rep hash m A -> Forall wf_op ops ->
+  rep hash m A ->
   exists m' outs, run hash m ops = Some (m', outs) /\ trace_ok A ops outs /\ rep hash m' (abs_run A ops outs).
 Proof. exact run_refines. Qed.
 Print Assumptions C18_run_refines.
 
-(* one step, with its frame: a refused allocation changes nothing *)
+(* one step: the result is BadPolicy exactly when the oracle violates the side condition; refusal and BadPolicy change nothing *)
 Theorem C18_step_refines : forall (hash : Z -> Z) m A o,
-  rep hash m A -> wf_op o ->
+  rep hash m A ->
   exists m' out, run_op hash m o = Some (m', out) /\ out_ok A o out /\ rep hash m' (abs_step A o out) /\
-                 (forall r, out = AllocFailed r -> m' = m).
+                 (out = BadPolicy <-> policy_ok (count m) A o = false) /\
+                 (forall r, out = AllocFailed r \/ out = BadPolicy -> m' = m).
 Proof. exact step_refines. Qed.
 Print Assumptions C18_step_refines.
 
@@ -43,24 +48,35 @@ Theorem C18_find_is_lookup : forall (hash : Z -> Z) m A k,
 Proof. exact rep_find. Qed.
 Print Assumptions C18_find_is_lookup.
 
-(* resize failure (allocation refused) leaves the table unchanged; insert then returns not_found, resize -1 *)
-Theorem C18_alloc_failure_unchanged : forall (hash : Z -> Z) m A o m' x,
-  rep hash m A -> wf_op o -> run_op hash m o = Some (m', AllocFailed x) ->
-  m' = m /\ match o with OInsert _ _ _ => x = RM_NOT_FOUND | OResize _ _ => x = -1 | _ => False end.
-Proof. exact alloc_failure_unchanged. Qed.
-Print Assumptions C18_alloc_failure_unchanged.
+(* a refused allocation (insert then answers not_found, resize -1) and a rejected policy leave the map as it was *)
+Theorem C18_failure_unchanged : forall (hash : Z -> Z) m A o m' out,
+  rep hash m A -> run_op hash m o = Some (m', out) -> (exists x, out = AllocFailed x) \/ out = BadPolicy ->
+  m' = m /\ match o, out with
+            | OInsert _ _ ORefused, AllocFailed x => x = RM_NOT_FOUND
+            | OResize ORefused, AllocFailed x => x = -1
+            | OInsert _ _ (OBuckets _), BadPolicy | OResize (OBuckets _), BadPolicy => policy_ok (count m) A o = false
+            | _, _ => False
+            end.
+Proof. exact failure_unchanged. Qed.
+Print Assumptions C18_failure_unchanged.
 
-(* insert under an existing key REPLACES the reference (the C does `return T[j].ref = ref`) and keeps count;
-   a new key increments count; the new reference is returned and found *)
-Theorem C18_insert_replaces : forall (hash : Z -> Z) m A s r a m' x,
-  rep hash m A -> s <> 0 -> insert hash a m s r = Some (m', Done x) ->
-  x = r /\ find hash m' s = Some r /\
-  count m' = (match A s with Some _ => count m | None => count m + 1 end).
+(* a policy that satisfies the side condition is never rejected *)
+Theorem C18_policy_ok_accepted : forall (hash : Z -> Z) m A o m' out,
+  rep hash m A -> policy_ok (count m) A o = true -> run_op hash m o = Some (m', out) -> out <> BadPolicy.
+Proof. exact policy_ok_accepted. Qed.
+Print Assumptions C18_policy_ok_accepted.
+
+(* insert under an existing key REPLACES the reference (the C does `return T[j].ref = ref`) and keeps count, whatever the
+   table size; a new key increments count; the new reference is returned and found; the table has the observed size *)
+Theorem C18_insert_replaces : forall (hash : Z -> Z) m A s r nb m' x,
+  rep hash m A -> s <> 0 -> insert hash m s r (OBuckets nb) = Some (m', Done x) ->
+  x = r /\ find hash m' s = Some r /\ buckets m' = nb /\
+  count m' = (if present A s then count m else count m + 1).
 Proof. exact insert_count. Qed.
 Print Assumptions C18_insert_replaces.
 
-Theorem C18_null_key : forall (hash : Z -> Z) m A r a,
-  rep hash m A -> insert hash a m 0 r = Some (m, Done r) /\ find hash m 0 = Some RM_NOT_FOUND.
+Theorem C18_null_key : forall (hash : Z -> Z) m A r g,
+  rep hash m A -> insert hash m 0 r g = Some (m, Done r) /\ find hash m 0 = Some RM_NOT_FOUND.
 Proof. exact null_key. Qed.
 Print Assumptions C18_null_key.
 
@@ -75,12 +91,6 @@ Theorem C18_keys_distinct : forall (hash : Z -> Z) m k r r',
   inv hash m -> holds m k r -> holds m k r' -> r = r'.
 Proof. exact holds_fun. Qed.
 Print Assumptions C18_keys_distinct.
-
-(* the generated constants satisfy what the proofs need (load factor < 1, power-of-two minimum size) *)
-Theorem C18_constants : RM_MIN_BUCKETS = 2 ^ MIN_E /\ 0 <= MIN_E <= 52 /\ 0 < RM_LOAD_N < RM_LOAD_D /\
-  RM_LOAD_D = 256 /\ RM_MAX_BUCKETS = 2 ^ 52.
-Proof. exact consts_ok. Qed.
-Print Assumptions C18_constants.
 
 (* Part B. Memoized clone over any memo that is a map, on an acyclic source: every distinct source object is emitted
    once; the reference of an object is its position; any later visit returns the same reference and emits nothing. *)
@@ -106,14 +116,17 @@ Theorem C18_clone_total : forall (M : Type) (mfind : M -> Z -> Z) (minsert : M -
 Proof. exact @clone_total. Qed.
 Print Assumptions C18_clone_total.
 
-(* hypotheses are satisfiable; the transcribed Murmur3 finalizer is one instance of [hash] *)
+(* hypotheses are satisfiable; the transcribed Murmur3 finalizer is one instance of [hash]; 16 -> 8 is a shrink, the last
+   insert asks for a table that is already full *)
 Example C18_instance :
   match run refmap_hash rm_init
-          [OInsert 4096 5 true; OInsert 4096 7 true; OInsert 0 9 true; OInsert 8192 0 true; OFind 4096; OFind 8192;
-           OFind 12; OResize 1000 false; OResize 1000 true; OFind 4096; OReset; OFind 4096] with
+          [OInsert 4096 5 (OBuckets 8); OInsert 4096 7 (OBuckets 8); OInsert 0 9 (OBuckets 8); OInsert 8192 0 (OBuckets 16); OFind 4096;
+           OFind 8192; OFind 12; OResize ORefused; OResize (OBuckets 2048); OFind 4096; OInsert 12 1 ORefused; OInsert 12 1 (OBuckets 2);
+           OReset; OFind 4096; OInsert 1 1 (OBuckets 12)] with
   | Some (m, outs) => (count m, buckets m, outs)
   | None => (0, 0, [])
-  end = (0, 2048, [Done 5; Done 7; Done 9; Done 0; Done 7; Done 0; Done 0; AllocFailed (-1); Done 0; Done 7; Done 0; Done 0]).
+  end = (0, 2048, [Done 5; Done 7; Done 9; Done 0; Done 7; Done 0; Done 0; AllocFailed (-1); Done 0; Done 7; AllocFailed 0;
+                   BadPolicy; Done 0; Done 0; BadPolicy]).
 Proof. vm_compute. reflexivity. Qed.
 
 Example C18_clone_instance : W ffind {| memo := fun _ => 0; emitted := [] |} /\
